@@ -211,13 +211,82 @@ def run_one(h_bin, hid, seed, hist):
     return hid, rc, out
 
 
+def susp_configs(ctx):
+    """(id, seed, threads, scheduler, rounds) of the suspended-submission processes (harness/c05_susp.cpp)"""
+    rnd = random.Random(ctx.seed * 104729 + 11)
+    out = []
+    if ctx.tier == 'quick':
+        scheds = ['default'] + rnd.sample(SCHEDS, 3)
+        k = 0
+        for s in scheds:
+            for t in (1, 2, 4):
+                out.append(('s%d' % k, ctx.seed * 1000 + k, t, s, 6))
+                k += 1
+    else:
+        k = 0
+        for rep in range(3):
+            for s in ['default'] + SCHEDS:
+                for t in (1, 2, 3, 4):
+                    out.append(('s%d' % k, ctx.seed * 1000 + k, t, s, 10))
+                    k += 1
+    return out
+
+
+def run_susp_one(s_bin, cfg):
+    args = [s_bin] + [str(x) for x in cfg]
+    rc, out = sh(args, timeout=300)
+    return cfg, rc, out
+
+
+def run_suspended(ctx, r, only=None):
+    """submissions while the runtime is suspended and concurrently with suspend(), through every submission path
+    (execute, schedule|then, pika::thread, register_work, register_thread, high priority, hinted to every worker), from plain
+    OS threads; monitors of harness/c05_susp.cpp: nothing rejected, nothing runs before resume(), everything ran after
+    resume(); wait().  Signatures C05:suspended:<what>."""
+    s_bin = ctx.build_harness('c05_susp', 'c05_susp.cpp')
+    cfgs = [tuple(only)] if only else susp_configs(ctx)
+    with ThreadPoolExecutor(max_workers=4) as ex:
+        results = list(ex.map(lambda c: run_susp_one(s_bin, c), cfgs))
+    for cfg, rc, out in results:
+        lines = out.split('\n')
+        mons = [x for x in lines if x.startswith('MON ')]
+        end = [x for x in lines if x.startswith('END ')]
+        steps = [x for x in lines if x.startswith('STEP ')]
+        rp = {'harness': 'c05_susp', 'args': [str(x) for x in cfg], 'cmd': '%s %s' % (s_bin, ' '.join(str(x) for x in cfg))}
+        for m in mons:
+            p = m.split(' ', 3)
+            kind = p[2] if len(p) > 2 else 'suspended:unknown'
+            r.hits.append(Hit('monitor', 'C05:' + kind,
+                              'submissions while the runtime is suspended / racing suspend() (%s workers, scheduler %s): %s %s'
+                              % (cfg[2], cfg[3], kind, p[3] if len(p) > 3 else ''), dict(rp, observed=m, tail=lines[-8:])))
+        if not end and not mons:
+            last = steps[-1] if steps else '(before the first step)'
+            r.hits.append(Hit('monitor', 'C05:suspended:crash',
+                              'the process submitting work to a suspended runtime died (status %d) during [%s] (%s workers, scheduler %s): %s'
+                              % (rc, last, cfg[2], cfg[3], ' | '.join([x for x in lines if x and not x.startswith('STEP ')][-5:])[-500:]),
+                              dict(rp, rc=rc, step=last, tail=lines[-10:])))
+        if end:
+            f = dict(x.split('=', 1) for x in end[0].split(' ')[2:] if '=' in x)
+            r.evaluations += int(f.get('rounds', '0'))
+            r.traces += 0
+            r.count('suspended_rounds', int(f.get('rounds', '0')))
+            r.count('submitted_while_suspended', int(f.get('quiet_while_suspended', '0')) + int(f.get('racing_after_suspend_returned', '0')))
+            r.count('submitted_during_suspend_call', int(f.get('racing_during_suspend', '0')))
+            r.count('suspended_scheduler=' + str(cfg[3]))
+            if int(cfg[2]) >= 2 and int(f.get('racing_during_suspend', '0')) > 0:
+                r.nontrivial('susp ' + end[0])
+            r.sample({'suspended_submissions': end[0]}, cap=8)
+
+
 def run(ctx):
     r = Result()
     r.rule = ('PROC: histories (1-4 restarts each; thread counts 1-4; all eight --pika:scheduler policies; task programs = '
               'fan-out trees with yields/sleeps; external submitter threads racing wait and the blocked stop; suspend with '
               'submissions while suspended; calls violating preconditions) are generated from VERIF_SEED; each runs in its own '
               'process on the real runtime with seeded perturbation at hooks 501-506; a case is one history; non-trivial = at '
-              'least one restart and one of wait/suspend/blocked-stop raced by submissions; distinct = distinct history text')
+              'least one restart and one of wait/suspend/blocked-stop raced by submissions; distinct = distinct history text; '
+              'SUSP: per (scheduler, workers) one process of harness/c05_susp.cpp: rounds of suspend / submissions through every '
+              'submission path from OS threads while suspended and racing suspend() / resume / wait; one evaluation = one round')
     ctx.build_pika()
     drv = ctx.build_model('C05', 'ExtractC05.v', 'drv_c05.ml')
     h_bin = ctx.build_harness('c05_life', 'c05_life.cpp')
@@ -227,6 +296,9 @@ def run(ctx):
             rp = json.load(open(ctx.replay)).get('replay', {})
         except Exception:
             rp = {}
+        if rp.get('harness') == 'c05_susp' and len(rp.get('args', [])) >= 5:
+            run_suspended(ctx, r, only=rp['args'][:5])
+            return r
         if rp.get('hist'):
             class H0:
                 pass
@@ -367,5 +439,7 @@ def run(ctx):
                           'life cycle: implementation and model differ on %s %s: impl [%s] model [%s]' % (k[0], k[1], a, b),
                           {'harness': 'c05_life', 'id': hid, 'seed': getattr(h, 'seed', None), 'hist': h.hist_str() if h else None,
                            'in_lines': h.in_lines(h.seed) if h else None, 'impl': a, 'model': b}))
+    if not ctx.replay:
+        run_suspended(ctx, r)
     r.extra = {'histories_run': len(runnable), 'incarnation_summaries_compared': len([x for x in impl_outs if x.startswith('OUT INC')])}
     return r
